@@ -29,6 +29,7 @@ WhyChunks(c) == LET n == NumChunks(Len(c.enc), c.m) IN
                 IF Len(c.parts) # n THEN "chunk-count"
                 ELSE IF \E k \in 1..n : c.parts[k] # PartText(c, k, n) THEN "chunk-text" ELSE ""
 WhyParse(c) == IF c.honest /\ ~c.accepted THEN "honest-parts-rejected"
+               ELSE IF c.strict /\ c.accepted THEN "parts-that-disagree-on-the-part-count-accepted"
                ELSE IF c.accepted /\ c.result # c.payload THEN "reassembled-different-data" ELSE ""
 Why(c) == CASE c.kind = "bc32" -> WhyBc32(c)
             [] c.kind = "bc32bad" -> (IF Bc32Decode(c.text) # <<-1>> THEN "harness" ELSE IF c.accepted THEN "bc32decode-accepts-corrupted-text" ELSE "")
